@@ -215,18 +215,76 @@ async def dump_box(world, name):
     return out
 
 
-async def run_program(prog, examine=False):
+def _norm(b):
+    return b.replace(b'\r\n', b'\n')
+
+
+async def dump_box_proto(o, name):
+    """(next_uid, [(uid, flags, body)]) of a mailbox through a second connection (any backend)"""
+    r = await o.cmd(b'STATUS ' + name.encode() + b' (UIDNEXT)')
+    m = re.search(rb'UIDNEXT (\d+)', b''.join(r['untagged']))
+    nxt = int(m.group(1)) if m else None
+    await o.cmd(b'EXAMINE ' + name.encode())
+    r = await o.cmd(b'UID FETCH 1:* (UID FLAGS BODY.PEEK[])')
+    out = []
+    for u in r['untagged']:
+        mu = re.search(rb'UID (\d+)', u)
+        mf = re.search(rb'FLAGS \(([^)]*)\)', u)
+        mb = re.search(rb'BODY\[\] \{(\d+)\}\r\n', u)
+        if mu and mf and mb:
+            out.append((int(mu.group(1)), frozenset(f for f in mf.group(1).split() if f != b'\\Recent'),
+                        u[mb.end():mb.end() + int(mb.group(1))]))
+    await o.cmd(b'CLOSE')
+    return nxt, sorted(out)
+
+
+async def maildir_world(layout):
+    """the real MaildirBackend with the same starting point as the dict demo data: INBOX holds uids 101..104 (the UID
+    list's next-uid field is set to 101 before the first delivery), Dest is empty"""
+    import os
+    from .imapdrv import MaildirWorld
+    w = await MaildirWorld(layout=layout).start(users=(('alice', 'apass'),))
+    a = await w.client('a', user=b'alice', pw=b'apass')
+    await a.cmd(b'STATUS INBOX (UIDNEXT)')
+    path = os.path.join(w.base, 'alice', 'dovecot-uidlist')
+    with open(path) as f:
+        lines = f.read().split('\n')
+    lines[0] = re.sub(r' N\d+', ' N101', lines[0])
+    with open(path, 'w') as f:
+        f.write('\n'.join(lines))
+    await a.cmd(b'LOGOUT')
+    a = await w.client('a2', user=b'alice', pw=b'apass')
+    for i, fl in enumerate((b'\\Seen', b'', b'\\Seen \\Flagged', b'\\Answered')):
+        body = b'Subject: demo %d\r\n\r\ndemo message %d\r\n' % (i, i)
+        await a.cmd(b'APPEND INBOX (' + fl + b') {%d+}\r\n' % len(body) + body)
+    return w, a
+
+
+async def run_program(prog, examine=False, backend='dict'):
     errors = []
-    w = await World().start()
-    a = await w.client('a')
+    if backend == 'dict':
+        w = await World().start()
+        a = await w.client('a')
+        o = None
+    else:
+        w, a = await maildir_world(backend)
+        o = await w.client('o', user=b'alice', pw=b'apass')
     await a.cmd(b'CREATE Dest')
     model = Model()
     for name in ('INBOX', 'Dest'):
         model.boxes[name] = MBox()
-        for uid, flags, body in await dump_box(w, name):
-            model.boxes[name].msgs.append(MMsg(uid, flags, body))
-        mbx = await w.mailbox(name)
-        model.boxes[name].next_uid = mbx._max_uid + 1
+        if backend == 'dict':
+            for uid, flags, body in await dump_box(w, name):
+                model.boxes[name].msgs.append(MMsg(uid, flags, body))
+            mbx = await w.mailbox(name)
+            model.boxes[name].next_uid = mbx._max_uid + 1
+        else:
+            nxt, msgs = await dump_box_proto(o, name)
+            for uid, flags, body in msgs:
+                model.boxes[name].msgs.append(MMsg(uid, flags, body))
+            model.boxes[name].next_uid = nxt
+    if backend != 'dict' and [m.uid for m in model.boxes['INBOX'].msgs] != [101, 102, 103, 104]:
+        errors.append(f'harness: the maildir store does not start with uids 101..104: {[m.uid for m in model.boxes["INBOX"].msgs]}')
     r = await a.cmd(b'SELECT INBOX')
     model.selected = 'INBOX'
     view = ClientView()
@@ -263,13 +321,20 @@ async def run_program(prog, examine=False):
             break
     if not errors:
         for name in ('INBOX', 'Dest'):
-            real = await dump_box(w, name)
-            want = [(m.uid, frozenset(m.flags), m.body) for m in model.boxes[name].msgs]
+            if backend == 'dict':
+                real = await dump_box(w, name)
+                want = [(m.uid, frozenset(m.flags), m.body) for m in model.boxes[name].msgs]
+            else:
+                # the maildir backend stores LF line ends (known finding of C03): bodies are compared modulo CRLF/LF
+                real = [(u, f, _norm(b)) for u, f, b in (await dump_box_proto(o, name))[1]]
+                want = [(m.uid, frozenset(m.flags), _norm(m.body)) for m in model.boxes[name].msgs]
             if real != want:
                 errors.append(f'final contents of {name}: real {[(u, sorted(f)) for u, f, _ in real]} '
                               f'model {[(u, sorted(f)) for u, f, _ in want]}' +
                               (' (bodies differ)' if [(u, f) for u, f, _ in real] == [(u, f) for u, f, _ in want] else ''))
     await w.close()
+    if hasattr(w, 'cleanup'):
+        w.cleanup()
     exc = a.exception()
     if exc is not None:
         errors.append(f'connection died: {exc!r}')
@@ -277,8 +342,11 @@ async def run_program(prog, examine=False):
 
 
 def _worker(prog):
+    backend = 'dict'
+    if prog and isinstance(prog[0], str) and prog[0].startswith('@'):
+        backend, prog = prog[0][1:], prog[1:]
     try:
-        errs, sig = run(run_program(prog))
+        errs, sig = run(run_program(prog, backend=backend))
     except Exception as exc:    # noqa
         import traceback
         return prog, [f'harness exception {exc!r} {traceback.format_exc()[-300:]}'], ()
@@ -307,12 +375,19 @@ def programs(tier, seed):
             yield tuple(rnd.choice(al) for _ in range(rnd.choice((3, 4))))
 
 
-def bounded_refmodel(label):
+def bounded_refmodel(label, backend='dict'):
     from pyvc.prop import BoundedResult
 
     def fn(tier, seed):
         res = BoundedResult()
         progs = list(programs(tier, seed))
+        if backend != 'dict':
+            # the maildir backend (thread pool, real files): every single command, and a seeded sample of pairs and triples
+            import random
+            rnd = random.Random(seed)
+            al = alphabet(tier)
+            progs = [(c,) for c in al] + [tuple(rnd.choice(al) for _ in range(rnd.choice((2, 3)))) for _ in range(400 if tier == 'quick' else 6000)]
+            progs = [('@' + backend,) + p for p in progs]
         res.exhaustive = False if tier == 'quick' else False
         res.note = 'single commands and pairs: exhaustive over the stated alphabet; longer programs: seeded sample'
         with mp.get_context('fork').Pool(16) as pool:
@@ -321,8 +396,8 @@ def bounded_refmodel(label):
                 res.distinct.add(sig)
                 if errs:
                     res.fail(f'{label}/agrees_with_reference_model',
-                             [wire(c)[0].decode() for c in prog], errs[:3])
+                             [wire(c)[0].decode() for c in prog if not isinstance(c, str)], errs[:3])
                 elif len(res.samples) < 2:
-                    res.samples.append(dict(program=[wire(c)[0].decode() for c in prog], result='agrees'))
+                    res.samples.append(dict(program=[wire(c)[0].decode() for c in prog if not isinstance(c, str)], result='agrees'))
         return res
     return fn
